@@ -735,6 +735,8 @@ namespace link_layer {
         ll_result handle_ll_control_data( const write_buffer& pdu, read_buffer output );
         // TODO Make handle_pending_ll_control() impossible to fail by checking PDUs immediately
         ll_result handle_pending_ll_control( std::uint16_t instance );
+        // true, if the instant of a just received LL control PDU can not be met anymore
+        bool instant_passed( std::uint16_t instant ) const;
 
         connection_details details() const;
 
@@ -1548,8 +1550,8 @@ namespace link_layer {
                 defered_conn_event_counter_ = read_16bit( &body[ 10 ] );
                 commit = false;
 
-                if ( static_cast< std::uint16_t >( defered_conn_event_counter_ - this->connection_event_counter() + 1 ) & 0x8000
-                    || defered_conn_event_counter_ == this->connection_event_counter() + 1 )
+                if ( instant_passed( defered_conn_event_counter_ )
+                    || defered_conn_event_counter_ == static_cast< std::uint16_t >( this->connection_event_counter() + 1 ) )
                 {
                     disconnecting_reason_ = connection_instant_passed;
                     result = ll_result::disconnect;
@@ -1588,7 +1590,7 @@ namespace link_layer {
                 defered_conn_event_counter_ = read_16bit( &body[ 6 ] );
                 commit = false;
 
-                if ( static_cast< std::uint16_t >( defered_conn_event_counter_ - this->connection_event_counter() ) & 0x8000 )
+                if ( instant_passed( defered_conn_event_counter_ ) )
                 {
                     disconnecting_reason_ = connection_instant_passed;
                     result = ll_result::disconnect;
@@ -1673,7 +1675,13 @@ namespace link_layer {
             }
             else if ( this->handle_phy_request( opcode, size, pdu, write, *this, commit ) )
             {
-                // all phy PDU handled in handle_phy_reqest
+                // all phy PDU handled in handle_phy_reqest; a defered LL_PHY_UPDATE_IND needs an instant that can be met
+                if ( !defered_ll_control_pdu_.empty() && instant_passed( defered_conn_event_counter_ ) )
+                {
+                    defered_ll_control_pdu_ = write_buffer{ nullptr, 0 };
+                    disconnecting_reason_   = connection_instant_passed;
+                    result                  = ll_result::disconnect;
+                }
             }
             else if ( opcode != LL_UNKNOWN_RSP )
             {
@@ -1689,6 +1697,17 @@ namespace link_layer {
         }
 
         return result;
+    }
+
+    template < class Server, template < std::size_t, std::size_t, class > class ScheduledRadio, typename ... Options >
+    bool link_layer< Server, ScheduledRadio, Options... >::instant_passed( std::uint16_t instant ) const
+    {
+        // connection_event_counter() is still the counter of the connection event in which the PDU was received.
+        // The next connection event is the first one that can be influenced. According to the core spec, an instant
+        // is in the past if ( instant - connEventCount ) mod 65536 >= 32767
+        const std::uint16_t distance = instant - this->connection_event_counter();
+
+        return distance == 0 || distance >= 0x7fff;
     }
 
     template < class Server, template < std::size_t, std::size_t, class > class ScheduledRadio, typename ... Options >
